@@ -273,7 +273,25 @@ const _: (/* conversions */) = {
     }
     
     impl From<base::Node> for Node {
-        fn from(mut base: base::Node) -> Self {
+        fn from(base: base::Node) -> Self {
+            Node::from_base(base, None)
+        }
+    }
+
+    impl Node {
+        /// `outer`: fangs effective at the parent node ( `None` for a root )
+        fn from_base(mut base: base::Node, outer: Option<&base::FangsList>) -> Self {
+            /* Fangs of an `Ohkami` apply at and under the node it is mounted on, */
+            /* independently of how the tree is compressed below                 */
+            if let Some(outer) = outer {
+                base.fangses = base.fangses.inherited(outer);
+            }
+
+            /* The mount point of a nested `Ohkami` keeps its own node: its catch-all */
+            /* is what applies the nested Ohkami's fangs to 404s under the mount path */
+            #[cfg(feature="__rt_native__")]
+            let is_mount_point = outer.is_some_and(|outer| !outer.is_same_as(&base.fangses));
+
             /* skip compression on edge runtimes */
             #[cfg(feature="__rt_native__")]
             /* compress: merge single-child static pattern and compress routing tree */
@@ -281,6 +299,10 @@ const _: (/* conversions */) = {
                && base.handler.is_none()
                && base.pattern.as_ref().is_none_or(|p| p.is_static())
                && base.children[0].pattern.as_ref().unwrap(/* not root */).is_static()
+               /* never merge across the boundary of nested `Ohkami`s: the fangs of the inner one */
+               /* must apply at and under its mount point, not around the whole merged pattern    */
+               && !is_mount_point
+               && base.children[0].fangses.clone().inherited(&base.fangses).is_same_as(&base.fangses)
             {
                 let child = base.children.pop().unwrap(/* base.children.len() == 1 */);
                 base.children = child.children;
@@ -304,6 +326,8 @@ const _: (/* conversions */) = {
 
             #[cfg(feature="openapi")] let has_handler = base.handler.is_some();
 
+            let fangses = base.fangses.clone();
+
             let proc = base.fangses.clone().into_proc_with(base.handler.unwrap_or(Handler::default_not_found()));
             #[cfg(feature="openapi")] let (proc, openapi_operation) = (proc.0, has_handler.then_some(proc.1));
 
@@ -312,7 +336,7 @@ const _: (/* conversions */) = {
 
             Node {
                 pattern:  base.pattern.map(Pattern::from).unwrap_or(Pattern::Static(b"")),
-                children: base.children.into_iter().map(Node::from).collect::<Vec<_>>().leak(),
+                children: base.children.into_iter().map(|c| Node::from_base(c, Some(&fangses))).collect::<Vec<_>>().leak(),
 
                 proc,
                 catch,
